@@ -114,6 +114,8 @@ def confirm(run, v):
     cases = [{'entry': 'run', 'device': 'T1', 'input': b'A:B;:X;U? 5;S "x";K #11a;FOO\nA:Q?\n'.hex(), 'cap': 64},
              {'entry': 'process', 'device': 'T1', 'input': b'A:Q?\nX\nFOO\nS "a\nb"\n'.hex(), 'n': 16, 'chunks': [], 'tail': 3},
              {'entry': 'run', 'device': 'TR', 'input': b'RST?;RT4?;RAR?;RF64?;RI64?;RHV?;RER?\n'.hex(), 'cap': 256},
+             {'entry': 'run', 'device': 'TR', 'input': b'RST?;RHS?;RT2?\n'.hex(), 'cap': 256,
+              'script': {'0': ['ok', 'str:' + 'say "hi" \u00b5'.encode().hex()], '1': ['ok', 'str:' + b'a"b'.hex()], '2': ['ok', 'tuple:[int:1;str:' + b'"'.hex() + ']']}},
              {'entry': 'run', 'device': 'Q2', 'input': b'ZZ\nZZ\nZZ\nSYST:ERR?\nSYST:ERR:COUN?\n'.hex(), 'cap': 256},
              {'entry': 'run', 'device': 'TY', 'input': b'N3 1,ON,"z"\nPF64 1.5e3\nPBL #11a\nPI64 -5\n'.hex(), 'cap': 256}]
     detail = {}
